@@ -5,7 +5,7 @@ Relational semantics of operator trees over an abstract interpretation `Θ` of t
 window functions.  One definition, two configurations:
 
 * `SemCfg.pandas` – what `pandas_base.py`'s `_*_step` methods compute (A.3 of DESIGN.md), after fix D13:
-  join keys match null with null (`pandas.merge`), CROSS is an outer join on a constant key;
+  join keys match null with null (`pandas.merge`);
 * `SemCfg.ref`    – the reference meaning the properties talk about (standard SQL joins: null never matches,
   CROSS is the plain product).
 
@@ -41,7 +41,9 @@ structure SemCfg where
   crossAsOuter : Bool
   deriving DecidableEq, Repr
 
-def SemCfg.pandas : SemCfg := ⟨true, true⟩
+/-- after fix 1a3e0a8 Pandas evaluates CROSS as an inner join on a constant key (`crossAsOuter` false); the flag is
+kept so that the pre-fix behaviour stays expressible -/
+def SemCfg.pandas : SemCfg := ⟨true, false⟩
 def SemCfg.ref : SemCfg := ⟨false, false⟩
 
 /-! ### expressions, row-wise -/
